@@ -688,7 +688,8 @@ var verifInferNames = []string{"literal-kind", "reassignment", "array-literal", 
 	"last-with-count-self", "max-optional-unify", "shift-with-count-self", "array-times-integer-self", "array-times-string", "range-first-optional", "range-first-count-array",
 	"integer-times-numeric", "at-optional-unify", "delete_at-optional-unify", "array-minus-self", "array-and-self", "index-assignment-growth", "reject-block-self",
 	"collect-block-result-array", "hash-key-declared-union", "each-returns-self", "to_s-on-any-kind", "hash-store-new-key-values", "ternary-union", "interpolated-string",
-	"multiple-assignment", "array-destructuring-assignment", "numeric-plus-integer", "min-optional-unify", "last-optional-unify", "string-optional-return", "integer-compare"}
+	"multiple-assignment", "array-destructuring-assignment", "numeric-plus-integer", "min-optional-unify", "last-optional-unify", "string-optional-return", "integer-compare",
+	"merge-of-hashes-with-union-values", "array-of-hashes-with-union-values", "merge!-of-hashes-with-union-values", "merge-of-hashes-with-scalar-values", "merge-adds-a-key"}
 
 // VerifInfer: straight-line skeletons probed with dbtp; the expected type is computed from
 // the kind variables by the reference model of the property statement.
@@ -906,6 +907,28 @@ func VerifInfer(n int) {
 		s = verifInstallSym("a")
 		src = "x = Sym.a\nt = \"abc\".index(\"b\")\ndbtp t\nu = \"abc\".upcase!\ndbtp u\n"
 		probes = []probe{{3, func() []string { return verifUnionAlts([]int{base.VkInt, base.VkNil}) }}, {5, func() []string { return verifUnionAlts([]int{base.VkString, base.VkNil}) }}}
+	case 50:
+		// the other side's value is the concrete union Float | Symbol
+		s = verifInstallSym("u")
+		src = "fs = true ? 1.5 : :s\nh = {k: Sym.u}\nm = h.merge({k: fs})\nv = m[:k]\ndbtp v\n"
+		probes = []probe{{5, func() []string { return verifUnionAlts([]int{s.u1, s.u2, base.VkFloat, base.VkSymbol}) }}}
+	case 51:
+		s = verifInstallSym("u")
+		src = "fs = true ? 1.5 : :s\nrows = [{k: Sym.u}, {k: fs}]\nv = rows[1][:k]\ndbtp v\n"
+		probes = []probe{{4, func() []string { return verifUnionAlts([]int{s.u1, s.u2, base.VkFloat, base.VkSymbol}) }}}
+	case 52:
+		s = verifInstallSym("u")
+		src = "fs = true ? 1.5 : :s\nh = {k: Sym.u}\nh.merge!({k: fs})\nv = h[:k]\ndbtp v\n"
+		probes = []probe{{5, func() []string { return verifUnionAlts([]int{s.u1, s.u2, base.VkFloat, base.VkSymbol}) }}}
+	case 53:
+		// Ruby: the later value wins; ti may also keep both
+		s = verifInstallSym("a", "b")
+		src = "h = {k: Sym.a}\nm = h.merge({k: Sym.b})\nv = m[:k]\ndbtp v\n"
+		probes = []probe{{4, func() []string { return append(verifUnionAlts([]int{s.ka, s.kb}), verifKN(s.kb)) }}}
+	case 54:
+		s = verifInstallSym("a", "b")
+		src = "h = {k: Sym.a}\nm = h.merge({j: Sym.b})\nv = m[:j]\ndbtp v\nw = m[:k]\ndbtp w\n"
+		probes = []probe{{4, one(&s.kb)}, {6, one(&s.ka)}}
 	case 49:
 		s = verifInstallSym("n")
 		src = "x = Sym.n\nl = 2 <=> 3\ndbtp l\nm = 2 == x\ndbtp m\n"
@@ -916,6 +939,7 @@ func VerifInfer(n int) {
 	verifapi.WitnessList("Sym.b", verifKN(s.kb))
 	verifapi.WitnessList("Sym.n", verifKN(s.kn))
 	verifapi.WitnessList("Sym.u", verifKN(s.u1), verifKN(s.u2))
+	verifapi.WitnessList("Sym.w", verifKN(s.w1), verifKN(s.w2), verifKN(s.w3))
 	out := verifRun(src)
 	verifapi.Reach("ran")
 	for i, pr := range probes {
@@ -1444,7 +1468,8 @@ func verifExpectCovers(out, id, class string, row int, ks []int) {
 
 var verifUserNames = []string{"def-before-calls", "calls-before-def", "default-parameter", "keyword-parameter", "explicit-return", "call-inside-another-method", "body-operation", "three-call-sites", "calls-before-and-after-def", "caller-method-defined-before-callee", "keyword-calls-before-and-after-def",
 	"two-single-letter-keywords-declared-out-of-order", "single-letter-and-longer-keyword", "positional-default-and-keyword-mix", "call-inside-block-and-inside-method",
-	"two-methods-with-the-same-parameter-name", "instance-method-of-a-class", "class-method-of-a-class", "three-keywords-given-in-another-order", "explicit-return-of-two-kinds"}
+	"two-methods-with-the-same-parameter-name", "instance-method-of-a-class", "class-method-of-a-class", "three-keywords-given-in-another-order", "explicit-return-of-two-kinds",
+	"return-points-of-two-user-classes", "return-points-of-two-user-classes-and-a-float", "return-point-of-a-user-class-and-a-leaf"}
 
 func VerifUserMethod(n int) {
 	sk := verifapi.Concrete(verifapi.Int("skeleton", 0, len(verifUserNames)-1))
@@ -1496,6 +1521,12 @@ func VerifUserMethod(n int) {
 		src = "def f(ka:, kb:, kc:)\ndbtp ka\ndbtp kb\ndbtp kc\nkc\nend\nr1 = f(kc: 1.5, ka: Sym.a, kb: Sym.b)\ndbtp r1\n"
 	case 19:
 		src = "def f(v)\nif v.nil?\nreturn 1.5\nend\nv\nend\nr = f(Sym.a)\ndbtp r\n"
+	case 20:
+		src = "class Ca\ndef ma\n1\nend\nend\nclass Db\ndef mb\n2\nend\nend\ndef pick(flag)\nreturn Ca.new if flag\nDb.new\nend\nr = pick(Sym.a)\ndbtp r\n"
+	case 21:
+		src = "class Ca\ndef ma\n1\nend\nend\nclass Db\ndef mb\n2\nend\nend\ndef pick(flag)\nif flag\nreturn Ca.new\nend\nreturn 1.5 if flag.nil?\nDb.new\nend\nr = pick(Sym.a)\ndbtp r\n"
+	case 22:
+		src = "class Ca\ndef ma\n1\nend\nend\ndef pick(flag)\nreturn Ca.new if flag.nil?\nflag\nend\nr = pick(Sym.a)\ndbtp r\n"
 	}
 	verifapi.Witness("src", src)
 	out := verifRun(src)
@@ -1529,6 +1560,20 @@ func VerifUserMethod(n int) {
 		verifExpectCovers(out, "C15-ret1", cls("call-result-misses-argument-type"), 8, []int{base.VkFloat})
 	case 19:
 		verifExpectCovers(out, "C15-ret1", cls("call-result-misses-a-return-value"), 8, []int{base.VkFloat})
+	case 20:
+		verifExpectOneOf(out, "C15-ret1", cls("call-result-misses-a-return-value"), 16, []string{"Union<Ca Db>", "Union<Db Ca>"})
+	case 21:
+		verifapi.Witness("C15-ret1.row", "19")
+		verifapi.Witness("C15-ret1.musthave", "Ca,Db,Float")
+		verifapi.Classify(cls("call-result-misses-a-return-value"))
+		l := verifLine(out, 19)
+		verifapi.Assert(strings.Contains(l, "Ca") && strings.Contains(l, "Db") && strings.Contains(l, "Float"), "C15-ret1")
+	case 22:
+		verifapi.Witness("C15-ret1.row", "11")
+		verifapi.Witness("C15-ret1.musthave", "Ca,"+verifKN(s.ka))
+		verifapi.Classify(cls("call-result-misses-a-return-value"))
+		l := verifLine(out, 11)
+		verifapi.Assert(strings.Contains(l, "Ca") && strings.Contains(l, verifKN(s.ka)), "C15-ret1")
 	}
 	switch sk {
 	case 0:
@@ -1705,9 +1750,14 @@ func VerifClasses(n int) {
 func VerifVisibility(n int) {
 	def := verifapi.Concrete(verifapi.Int("definer", 0, 3))
 	vis := verifapi.Concrete(verifapi.Int("vis", 0, 2))
+	// an earlier visibility section (with its own method) before the target's keyword
+	before := verifapi.Concrete(verifapi.Int("before", 0, 2))
 	s := verifInstallSym("a")
 	verifapi.WitnessList("Sym.a", verifKN(s.ka))
 	visKw := []string{"", "private\n", "protected\n"}[vis]
+	if before > 0 {
+		visKw = []string{"", "private\n", "protected\n"}[before] + "def zfill\n0\nend\n" + []string{"public\n", "private\n", "protected\n"}[vis]
+	}
 	tgt := visKw + "def tgt\nSym.a\nend\n"
 	at := func(d int) string {
 		if d == def {
@@ -1731,6 +1781,9 @@ func VerifVisibility(n int) {
 	where := []string{"own-class", "superclass", "included-module", "module-included-by-superclass"}[def]
 	visName := visName3[vis]
 	shape := visName + "-method-of-" + where
+	// (the class does not name the preceding section: the known findings of the pinned tree
+	// are the same with and without one)
+	verifapi.Witness("preceding-section", visName3[before])
 	resolves := func(id string, row int, what string) {
 		verifExpect(out, id, "C16/"+what+"/"+shape, row, verifKN(s.ka))
 	}
@@ -2038,6 +2091,25 @@ func VerifDefineInfo(n int) {
 	cAfter := line("k.after_m")
 	cOne := line("k.e_one")
 	cEnd := line("endl(1, 2)")
+	// methods whose result is an object of a class from another namespace
+	line("class Pl")
+	line("def initialize(v)")
+	line("@v = v")
+	line("end")
+	line("end")
+	line("module Ou")
+	line("class Br")
+	rMake := line("def make(y)")
+	line("Pl.new(y)")
+	line("end")
+	rBuild := line("def self.build")
+	line("Br.new")
+	line("end")
+	line("end")
+	line("end")
+	line("ob = Ou::Br.new")
+	cMake := line("ob.make(1)")
+	cBuild := line("Ou::Br.build")
 	verifapi.Witness("src", src)
 	flags := cmd.NewExecuteFlags()
 	pre := "@./a.rb:::"
@@ -2067,6 +2139,8 @@ func VerifDefineInfo(n int) {
 			chk("C22-i-after", rAfter, "i/public", "method-after-visibility-section-reset")
 		}
 		chk("C22-i-top", rTop, "i/public", "top-level-method-with-multi-line-signature")
+		chk("C22-i-objret", rMake, "i/public", "method-returning-an-object-of-another-namespace")
+		chk("C22-i-objret-cls", rBuild, "c/public", "class-method-returning-an-object-of-its-own-namespace")
 		chk("C22-i-endless", rOne, "i/public", "endless-method")
 		chk("C22-i-endless-multi", rEnd, "i/public", "endless-method-with-multi-line-signature")
 	case 1:
@@ -2089,10 +2163,10 @@ func VerifDefineInfo(n int) {
 		chk("C22-d-endless-multi", "", "endl", rEnd, "endless-method-with-multi-line-signature")
 	case 2:
 		flags.IsHover = true
-		k := verifapi.Int("callrow", 0, 5)
-		target := verifapi.PickInt(k, cPub, cTop, cCls, cAfter, cOne, cEnd)
-		want := verifapi.Pick(k, "pub_m", "top_m", "cls_m", "after_m", "e_one", "endl")
-		verifapi.Witness("C22-hover.row", verifapi.Pick(k, verifItoa(cPub), verifItoa(cTop), verifItoa(cCls), verifItoa(cAfter), verifItoa(cOne), verifItoa(cEnd)))
+		k := verifapi.Int("callrow", 0, 7)
+		target := verifapi.PickInt(k, cPub, cTop, cCls, cAfter, cOne, cEnd, cMake, cBuild)
+		want := verifapi.Pick(k, "pub_m", "top_m", "cls_m", "after_m", "e_one", "endl", "make", "build")
+		verifapi.Witness("C22-hover.row", verifapi.Pick(k, verifItoa(cPub), verifItoa(cTop), verifItoa(cCls), verifItoa(cAfter), verifItoa(cOne), verifItoa(cEnd), verifItoa(cMake), verifItoa(cBuild)))
 		verifapi.Witness("C22-hover.method", want)
 		out := verifRunFlags(src, flags, target)
 		verifapi.Reach("ran")
@@ -2542,6 +2616,12 @@ var verifPreloadSkels = []struct {
 func VerifPreload(n int) {
 	sk := verifPreloadSkels[verifapi.Concrete(verifapi.Int("skeleton", 0, len(verifPreloadSkels)-1))]
 	split := verifapi.Concrete(verifapi.Int("split", 0, 2)) // 0: [c0] | c1+c2 ; 1: [c0+c1] | c2 ; 2: [c0],[c1] | c2
+	withI := verifapi.Concrete(verifapi.Int("dash_i", 0, 1))
+	flags := cmd.NewExecuteFlags()
+	if withI == 1 {
+		flags.IsDefineInfo = true
+		verifapi.Witness("flags", "-i")
+	}
 	s := verifInstallSym("a")
 	verifapi.WitnessList("Sym.a", verifKN(s.ka))
 	var pre []string
@@ -2570,16 +2650,16 @@ func VerifPreload(n int) {
 	}
 	verifapi.Witness("C18.prelines", verifItoa(preLines))
 	mark := verifapi.Snapshot()
-	outWhole := verifRun(whole)
+	outWhole := verifRunFlags(whole, flags, 0)
 	verifapi.Restore(mark)
 	verifapi.SetFile(".ti-loader.json", loaderJSON)
 	verifapi.SetFile("p0.rb", pre[0])
 	if len(pre) == 2 {
 		verifapi.SetFile("p1.rb", pre[1])
 	}
-	outSplit := verifRunPreload(target)
+	outSplit := verifRunFlags(target, flags, 0)
 	verifapi.Reach("ran")
-	shape := sk.name + "/" + []string{"one-preload-file-short", "one-preload-file-long", "two-preload-files"}[split]
+	shape := sk.name + "/" + []string{"one-preload-file-short", "one-preload-file-long", "two-preload-files"}[split] + []string{"", "/with-i"}[withI]
 	verifapi.Classify("C18/output-names-a-preload-file/" + shape)
 	verifapi.Assert(!strings.Contains(outSplit, "p0.rb") && !strings.Contains(outSplit, "p1.rb"), "C18-hidden")
 	verifapi.Classify("C18/output-differs-from-concatenation-restricted-to-target/" + shape)
